@@ -31,13 +31,14 @@ Inductive item :=
 | IFrom (e : nexpr) (xs : list (name * name))     (* {% from e import x1 as y1, .. %} *)
 | IPrintAttr (m x : name)                         (* {{ m.x }} *)
 | ICallAttr (m f : name) (arg : Z)                (* {{ m.f("arg") }} *)
-| IKeys (m : name).                               (* {% for k in m %}{{ k }},{% endfor %} *)
+| IKeys (m : name)                                (* {% for k in m %}{{ k }},{% endfor %} *)
+| ISetBlock (x : name) (body : list item).        (* {% set x %}..{% endset %} *)
 
 Inductive value :=
 | VUndef
 | VStr (s : list Z)
-| VMacro (body : list item)
-| VModule (kvs : list (name * value)).
+| VMacro (body : list item) (clo : list (name * value))   (* clo: the enclosed variables (closure) *)
+| VModule (kvs : list (name * value)) (body : list Z).    (* body: the text the module rendered *)
 
 (* fixed identifiers of the printer *)
 Definition v_loop : name := 90.       (* "i" *)
@@ -91,7 +92,7 @@ Definition truncate (n : nat) (e : venv) : venv :=
 
 Definition truthy (o : option value) : bool :=
   match o with
-  | Some (VStr (_ :: _)) | Some (VMacro _) | Some (VModule _) => true
+  | Some (VStr (_ :: _)) | Some (VMacro _ _) | Some (VModule _ _) => true
   | _ => false
   end.
 
@@ -100,10 +101,53 @@ Definition printed (o : option value) : outcome (list Z) :=
   match o with
   | None | Some VUndef => Ok []
   | Some (VStr s) => Ok s
-  | Some _ => Err E_Unmodelled
+  | Some (VModule _ body) => Ok body          (* Module::render: the captured body *)
+  | Some (VMacro _ _) => Err E_Unmodelled
   end.
 
 Definition str_of (s : Z) : value := VStr (if s =? 0 then [] else [s]).
+
+(* Enclose: the enclosed names with their values at the declaration of the macro *)
+Fixpoint closure_of (xs : list name) (e : venv) : frame :=
+  match xs with
+  | [] => []
+  | x :: r => match lookup x e with
+              | Some v => fset x v (closure_of r e)
+              | None => closure_of r e
+              end
+  end.
+
+(* The variables a macro encloses (compiler/meta.rs find_macro_closure / track_walk): every name
+   the body looks up before the body itself has assigned it; if / for / block / set-block / macro
+   bodies are scopes of their own; the name expressions of include / extends / import are not
+   visited.  [sc]: names assigned so far, [out]: the enclosed names in order of discovery. *)
+Definition fv_read (x : name) (sc out : list name) : list name * list name :=
+  if memZ x sc then (sc, out) else (x :: sc, if memZ x out then out else out ++ [x]).
+Fixpoint fv_item (it : item) (sc out : list name) {struct it} : list name * list name :=
+  let fv_list := fix go (l : list item) (sc out : list name) : list name * list name :=
+    match l with
+    | [] => (sc, out)
+    | i :: r => let so := fv_item i sc out in go r (fst so) (snd so)
+    end in
+  match it with
+  | IPrint x | ICall x _ | IPrintAttr x _ | ICallAttr x _ _ | IKeys x => fv_read x sc out
+  | ISet x _ | IImport _ x => (x :: sc, out)
+  | ICondExtends x _ => fv_read x sc out
+  | IIf x body => let so := fv_read x sc out in (fst so, snd (fv_list body (fst so) (snd so)))
+  | IFor _ body => (sc, snd (fv_list body (v_loop :: sc) out))
+  | IBlock _ _ body => (sc, snd (fv_list body sc out))
+  | ISetBlock x body => (x :: sc, snd (fv_list body sc out))
+  | IMacro f body => (f :: sc, snd (fv_list body (v_param :: sc) out))
+  | IFrom _ xs => (map snd xs ++ sc, out)
+  | IText _ | ISuper | ISelf _ | IExtends _ | IInclude _ _ => (sc, out)
+  end.
+Fixpoint fv_items (l : list item) (sc out : list name) : list name * list name :=
+  match l with
+  | [] => (sc, out)
+  | i :: r => let so := fv_item i sc out in fv_items r (fst so) (snd so)
+  end.
+(* the names a macro body (parameter [v_param]) encloses *)
+Definition enclosed (body : list item) : list name := snd (fv_items body [v_param] []).
 
 (* value of a template-name expression *)
 Definition eval_name (e : nexpr) (v : venv) : outcome name :=
